@@ -199,9 +199,69 @@ def run(prog: Program, rep, tier: str) -> None:
             ok = b_ is not None and [U(b_[k]) if isinstance(b_.get(k), ast.AST) else None for k in ip[:3]] == [f"Scaling.weights_from_nominal_values({q})" for q in ps[:3]]
     rep.check(ok, "nominal-weights", fn.qualname, short(r[0]) if r else "", "from_nominal_values normalises variable, constraint and objective values each with their own weight", fn.loc())
 
+    # an automatic scaling is a function of the values at the given scaling point: no module-level / class-level cache in scale.py
+    # may hand back the weights computed for another point or multiplier
+    from . import c10 as _c10
+    _c10.static_state(prog, rep, [prog.modules[SC.rsplit(".", 1)[0]]])
+    scaling_stores_weights(prog, rep, sc)
     grad_jac(prog, rep, sc)
     kkt(prog, rep, sc)
     scaling_inputs(prog, rep)
+
+
+WIDE_INT = ("int", "np.int64", "np.int_", "np.intp", "numpy.int64", "np.longlong", "np.int32", "numpy.int32")
+NARROW_INT = ("np.int8", "np.int16", "np.uint8", "np.uint16", "np.uint32", "np.uint64", "numpy.int8", "numpy.int16", "np.byte", "np.short")
+
+
+def scaling_stores_weights(prog: Program, rep, sc) -> None:
+    """Scaling keeps the weight vectors it is given, in an integer type wide enough for the arithmetic done on them later
+    (`c[i] - v[j]`, `o - v[i] - v[j]`, negation): a conversion to a narrower type makes those sums wrap for large exponents and
+    the scaled entries leave [1, 2) by hundreds of binary orders of magnitude."""
+    init = sc.methods["__init__"]
+    ff = facts_for(init)
+    ps = [p for p in init.params if p != "self"]
+
+    def narrow_in(node: ast.AST, where: str):
+        """-> description of a narrowing conversion found under node, 'unknown' for a conversion whose type is computed, None if none"""
+        found = None
+        for k in ast.walk(node):
+            if isinstance(k, ast.Call) and isinstance(k.func, ast.Attribute) and k.func.attr == "astype" and k.args:
+                t = U(k.args[0])
+                if t in WIDE_INT:
+                    continue
+                if t in NARROW_INT:
+                    return f"`{U(k)[:50]}` in {where}"
+                # a computed type: narrow if any narrow type is mentioned where it is chosen from
+                mod_src = " ".join(U(x) for x in ast.walk(node) if isinstance(x, (ast.List, ast.Tuple)))
+                names = {n_.id for n_ in ast.walk(k.args[0]) if isinstance(n_, ast.Name)}
+                cand = mod_src
+                fmod = prog.modules.get(SC.rsplit(".", 1)[0])
+                if fmod is not None:
+                    for st in fmod.tree.body:
+                        if isinstance(st, (ast.Assign, ast.AnnAssign)) and getattr(st, "value", None) is not None:
+                            cand += " " + U(st.value)
+                if any(nt in cand for nt in NARROW_INT):
+                    return f"`{U(k)[:50]}` in {where}, with the type chosen from a list that contains 8 / 16 bit integers"
+                found = "unknown"
+        return found
+    for attr in ("var_weights", "cons_weights"):
+        sts = [q for q in ff.order if isinstance(q.stmt, ast.Assign) and any(is_self_attr(t, attr) for t in q.stmt.targets)]
+        if not sts:
+            raise AnalysisError(f"Scaling.__init__ does not store self.{attr}")
+        for q in sts:
+            v = ff.resolved(q.stmt, q.stmt.value)
+            where = "Scaling.__init__"
+            verdict = narrow_in(v, where)
+            # a helper that was not expanded (it has a loop with a return inside): look into it
+            for k in ast.walk(v):
+                if isinstance(k, ast.Call) and verdict is None:
+                    for t in prog.resolve_call_target(init, k):
+                        if isinstance(t, FuncInfo) and t.module.name.startswith("pygradflow"):
+                            verdict = narrow_in(t.node, t.short) or verdict
+            if verdict == "unknown":
+                raise AnalysisError(f"Scaling.__init__ converts {attr} to an integer type the rule cannot determine")
+            rep.check(verdict is None, "weights-keep-width", init.qualname, short(q.stmt),
+                      f"Scaling.{attr} is kept in the (wide) integer type it arrives in" + (f"; narrowed by {verdict}" if verdict else ""), init.loc(q.stmt))
 
 
 def grad_jac(prog: Program, rep, sc) -> None:
